@@ -181,11 +181,21 @@ def read_dir(dirname, dt):
     return c03.read_dir(dirname, comp, dt)
 
 
+def show_meta(md):
+    """== Driver/C16.lean `showMeta16`: c03's canonical metadata without the `filesize` flag (checked by the oracle only)"""
+    o = c03._o
+    infos = ["/".join([o(c.get("chunk_i")), o(c.get("n")), o(c.get("start")), o(c.get("end")), o(c.get("run_id")),
+                       c03.show_runs_sorted(c.get("subruns")), o(c.get("first_time")), o(c.get("first_endtime")), o(c.get("last_time")),
+                       o(c.get("last_endtime")), o(c.get("filename")), o(c.get("nbytes"))]) for c in md.get("chunks", [])]
+    return (f"start={o(md.get('start'))} end={o(md.get('end'))} we={int('writing_ended' in md)} exc={int('exception' in md)} "
+            f"chunks=" + (";".join(infos) if infos else "-"))
+
+
 def show_dir(d):
     if d is None:
         return "absent"
     md, _name, files = d
-    return f"{c03.show_meta(md)} ## {c03.show_files(files)}"
+    return f"{show_meta(md)} ## {c03.show_files(files)}"
 
 
 def load_chunks(loader_iter):
@@ -256,7 +266,7 @@ def case_key(case):
 
 
 def hdr_op(case, data_type, target, pfx):
-    return [RUN, data_type, KIND, str(target), pfx]
+    return [RUN, data_type, KIND, str(target), str(c03.dtype_of(case["enc"]).itemsize), pfx]
 
 
 def pfx_for(st, data_type, chunk_number=None):
@@ -273,7 +283,9 @@ def impl_copy(case):
     msgs = side["msgs"]
     dt = c03.dtype_of(case["enc"])
     root = tempfile.mkdtemp(dir=scratch_root())
-    a_dir, b_dir = os.path.join(root, "A"), os.path.join(root, "B")
+    a_dir = os.path.join(root, "A")
+    nt = int(case.get("ntargets", 1))
+    t_dirs = [os.path.join(root, f"B{k}") for k in range(nt)]
     try:
         with quiet():
             st = new_context(case, [a_dir])
@@ -281,49 +293,57 @@ def impl_copy(case):
             side["pfx"] = pfx_for(st, SRC)
             src_dir = dir_for(st, a_dir, SRC)
             before = snapshot(src_dir)
-            st.storage.append(strax.DataDirectory(b_dir))
+            for d_ in t_dirs:
+                st.storage.append(strax.DataDirectory(d_))
             try:
-                st.copy_to_frontend(RUN, SRC, target_frontend_id=1, target_compressor=case["dst_comp"], rechunk=bool(case["rechunk"]),
+                # one explicit target (index 1) or ALL frontends that do not have the data yet (target_frontend_id=None)
+                st.copy_to_frontend(RUN, SRC, target_frontend_id=1 if case.get("explicit", nt == 1) else None,
+                                    target_compressor=case["dst_comp"], rechunk=bool(case["rechunk"]),
                                     rechunk_to_mb=sl.target_mb(case["rechunk_to"], dt.itemsize))
             except Exception as e:  # noqa: BLE001
                 msgs.append(f"copy_to_frontend of a law-abiding stored layout failed: {type(e).__name__}: {e}")
                 return "err " + sl.err_name(e)
             if snapshot(src_dir) != before:
                 msgs.append("source directory changed by copy_to_frontend")
-            dst_dir = dir_for(st, b_dir, SRC)
-            d = read_dir(dst_dir, dt)
-            if d is None:
-                msgs.append("destination directory does not exist after copy_to_frontend")
-                return "ok absent"
-            md, _n, files = d
-            comp = case["dst_comp"] or case["src_comp"]
-            meta_msgs(msgs, md, files, dt, dst_dir, SRC, comp, what="destination: ")
-            exp_t = case["rechunk_to"] if case["rechunk"] else case["src_target"]
-            if sl.target_rows(md.get("chunk_target_size_mb", 0), dt.itemsize) != exp_t:
-                msgs.append(f"destination chunk_target_size_mb = {md.get('chunk_target_size_mb')} is not the one in force ({exp_t} rows)")
-            # what a context that only knows the destination loads
-            st_b = new_context(case, [b_dir])
-            loaded_s, chunks = show_loaded(lambda: load_chunks(st_b.storage[0].loader(st_b.key_for(RUN, SRC))))
-            if chunks is None:
-                msgs.append(f"loading the copy failed: {loaded_s}")
-            else:
-                arr = attempt(msgs, "get_array of the copy", lambda: st_b.get_array(RUN, SRC, progress_bar=False))
-                if arr is not None and (arr.tobytes() != orig_bytes(case) or bytes_of_chunks(chunks, dt) != orig_bytes(case)):
-                    msgs.append("rows loaded from the copy are not bit-identical to the original rows")
-                if not case["rechunk"]:
-                    if [(c.start, c.end) for c in chunks] != [(a, b) for a, b, _r in case["layout"]]:
-                        msgs.append("chunk boundaries changed by a copy without rechunking")
+            outs = []
+            for k, b_dir in enumerate(t_dirs):
+                what = f"destination {k}: "
+                dst_dir = dir_for(st, b_dir, SRC)
+                d = read_dir(dst_dir, dt)
+                if d is None:
+                    msgs.append(what + "directory does not exist after copy_to_frontend")
+                    outs.append("ok absent")
+                    continue
+                md, _n, files = d
+                comp = case["dst_comp"] or case["src_comp"]
+                meta_msgs(msgs, md, files, dt, dst_dir, SRC, comp, what=what)
+                exp_t = case["rechunk_to"] if case["rechunk"] else case["src_target"]
+                if sl.target_rows(md.get("chunk_target_size_mb", 0), dt.itemsize) != exp_t:
+                    msgs.append(what + f"chunk_target_size_mb = {md.get('chunk_target_size_mb')} is not the one in force ({exp_t} rows)")
+                # what a context that only knows this destination loads
+                st_b = new_context(case, [b_dir])
+                loaded_s, chunks = show_loaded(lambda: load_chunks(st_b.storage[0].loader(st_b.key_for(RUN, SRC))))
+                if chunks is None:
+                    msgs.append(what + f"loading the copy failed: {loaded_s}")
                 else:
-                    boundary_msgs(msgs, case, chunks, "copy with rechunk")
-            return f"ok {show_dir(d)} ## {loaded_s}"
+                    arr = attempt(msgs, what + "get_array of the copy", lambda: st_b.get_array(RUN, SRC, progress_bar=False))
+                    if arr is not None and (arr.tobytes() != orig_bytes(case) or bytes_of_chunks(chunks, dt) != orig_bytes(case)):
+                        msgs.append(what + "rows loaded from the copy are not bit-identical to the original rows")
+                    if not case["rechunk"]:
+                        if [(c.start, c.end) for c in chunks] != [(a, b) for a, b, _r in case["layout"]]:
+                            msgs.append(what + "chunk boundaries changed by a copy without rechunking")
+                    else:
+                        boundary_msgs(msgs, case, chunks, what + "copy with rechunk")
+                outs.append(f"ok {show_dir(d)} ## {loaded_s}")
+            return " @@ ".join(outs)
     finally:
         shutil.rmtree(root, ignore_errors=True)
 
 
 def op_copy(case):
     pfx = _SIDE.get(case_key(case), {}).get("pfx", "src-x")
-    return " ".join(["c16.copy", str(int(case["rechunk"])), str(case["rechunk_to"]), *hdr_op(case, SRC, case["src_target"], pfx),
-                     *[sl.raw_chunk_op(rc) for rc in raw_layout(case)]])
+    return " ".join(["c16.copy", str(int(case.get("ntargets", 1))), str(int(case["rechunk"])), str(case["rechunk_to"]),
+                     *hdr_op(case, SRC, case["src_target"], pfx), *[sl.raw_chunk_op(rc) for rc in raw_layout(case)]])
 
 
 # ============================================================================= 2. the stand-alone rechunker
@@ -617,6 +637,12 @@ def impl_merge(case):
             if snapshot(src_dir) != before:
                 msgs.append("the dependency's stored data changed during per-chunk processing / merging")
             key_s = "plain" if plain else "+".join(map(str, combined))
+            if not plain and attempt(msgs, "is_stored", lambda: st.is_stored(RUN, TGT)):
+                msgs.append(f"per-chunk results {combined} of {n_chunks} dependency chunks (not starting at chunk 0 or not reaching the last one) "
+                            "were stored under the plain key of the target: the truncated data passes for the complete data type")
+            if not plain and not is_consecutive(combined):
+                msgs.append(f"merge_per_chunk_storage accepted the non-consecutive selection {combined} without an error")
+                return f"ok key={key_s} ## unknown"
             cn = None if plain else {SRC: combined}
             t_dir = dir_for(st, a_dir, TGT, cn)
             d = read_dir(t_dir, dt)
@@ -655,7 +681,8 @@ def impl_merge(case):
 def op_merge(case):
     side = _SIDE.get(case_key(case), {})
     n = len(case["sizes"])
-    return " ".join(["c16.merge", str(int(case["ros"])), str(int(case["rechunk"])), str(case["rechunk_to"]), str(case["mod"]), RUN, TGT,
+    return " ".join(["c16.merge", str(int(case["ros"])), str(int(case["rechunk"])), str(case["rechunk_to"]), str(case["mod"]),
+                     str(c03.dtype_of(case["enc"]).itemsize), RUN, TGT,
                      str(case["tgt_target"]), side.get("tpfx", "tgt-x"), "+".join(map(str, case["sizes"])),
                      ",".join(side.get("jpfx", [f"tgt-j{k}" for k in range(n)])), "+".join(map(str, case["sel"])) or "-",
                      str(case["src_target"]), side.get("spfx", "src-x"), *[sl.raw_chunk_op(rc) for rc in raw_layout(case)]])
@@ -789,6 +816,17 @@ def base(rng, op, **kw):
     return case
 
 
+T0 = 1_700_000_000_000_000_137     # epoch-scale nanoseconds, odd, above 2**53: float64 arithmetic is off by up to 128 ns here
+
+
+def shifted(case, t0=T0):
+    """the same case with every time moved by t0 (int64-safe)"""
+    c = dict(case)
+    c["layout"] = [[a + t0, b + t0, [[t + t0, e + t0, k] for t, e, k in rows]] for a, b, rows in case["layout"]]
+    c["t0"] = t0
+    return c
+
+
 def compositions(n):
     """all ways to cut range(n) into consecutive non-empty groups (sizes)"""
     if n == 0:
@@ -831,14 +869,16 @@ def run(ctx):
     # ---- 1. copy_to_frontend
     cases = []
     for _ in range(ctx.pick(160, 800)):
+        nt = rng.choice([1, 1, 2, 3])
         cases.append(base(rng, "copy", dst_comp=rng.choice(COMPRESSORS + [None]), rechunk=rng.randint(0, 1), rechunk_to=rng.randint(1, 7),
-                          proc=rng.choice(["single_thread", "threaded_mailbox"])))
+                          proc=rng.choice(["single_thread", "threaded_mailbox"]), ntargets=nt, explicit=bool(nt == 1 and rng.random() < 0.5)))
     go("copy/frontend", cases,
        "stored layouts (tiny / giant / with empty and zero-duration chunks / mixed; 0..12 rows; gaps > 1000 ns with p in {.2,.4,.7}) made by a real "
-       "source plugin (both processors) x 4 dtypes x source compressor x destination compressor (4 + unchanged) x rechunk off/on (targets 1..7 rows): "
-       "destination metadata, files and loaded chunks compared with the model; non-trivial = >= 2 stored chunks and >= 2 rows",
-       branch=lambda c, o: f"re{c['rechunk']}:{c['style']}:" + ("err" if not o.startswith("ok") else
-                                                                  ("same" if n_out(o, 2) == len(c["layout"]) else "changed")))
+       "source plugin (both processors) x 4 dtypes x source compressor x destination compressor (4 + unchanged) x rechunk off/on (targets 1..7 rows) x "
+       "1 destination frontend (explicit index or target_frontend_id=None) or 2-3 destination frontends filled in ONE call: metadata, files and loaded "
+       "chunks of EVERY destination compared with the model; non-trivial = >= 2 stored chunks and >= 2 rows",
+       branch=lambda c, o: f"targets{c['ntargets']}:re{c['rechunk']}:" + ("err" if not o.startswith("ok") else
+                                                                           ("same" if n_out(o.split(" @@ ")[0], 2) == len(c["layout"]) else "changed")))
 
     # ---- 2. the stand-alone rechunker
     def rech_case(parallel, dest=None, replace=None):
@@ -915,13 +955,36 @@ def run(ctx):
         sizes = [b - a for a, b in zip([0, *cuts], [*cuts, n])]
         k = len(sizes)
         sel = rng.choice([rng.sample(range(k), k), rng.sample(range(k), rng.randint(1, k)), sorted(rng.sample(range(k), rng.randint(1, k))),
-                          [rng.randrange(k), rng.randrange(k)]])
+                          [rng.randrange(k), rng.randrange(k)], list(range(rng.randint(1, k - 1), k)), list(range(0, rng.randint(1, k - 1)))])
         odd.append(dict(proto, sizes=sizes, sel=list(sel), ros=rng.randint(0, 1), rechunk=rng.randint(0, 1), rechunk_to=rng.randint(1, 7),
                         mod=rng.choice([2, 3]), tgt_target=rng.randint(1, 6), tgt_comp="blosc", dst_comp=None, proc="single_thread", workers=1))
     go("per-chunk/odd-selection", odd,
        "chunk_number_group out of order / incomplete / with a repeated group: which key the result is stored under, error kinds and what is stored "
        "compared with the model (mirrors the min/max completeness test of merge_per_chunk_storage)",
        branch=lambda c, o: o.split(" ## ")[0][:24], inside=False)
+
+    # ---- 4b. the same operations at epoch-scale timestamps
+    cases = []
+    for _ in range(ctx.pick(14, 120)):
+        cases.append(shifted(base(rng, "copy", n_rows=rng.randint(2, 12), dst_comp=rng.choice(COMPRESSORS + [None]), rechunk=int(rng.random() < 0.8),
+                                  rechunk_to=rng.randint(1, 5), proc=rng.choice(["single_thread", "threaded_mailbox"]), ntargets=rng.choice([1, 2]))))
+        c = rech_case("serial")
+        cases.append(shifted(dict(c, rechunk=1, target=rng.randint(1, 5))))
+        via = rng.choice(["context", "loader"])
+        cases.append(shifted(base(rng, "rol", n_rows=rng.randint(2, 12), rol=1, source_size=rng.randint(1, 4), via=via,
+                                  proc=rng.choice(["single_thread", "threaded_mailbox"]) if via == "context" else "-",
+                                  workers=rng.choice([1, 2]) if via == "context" else 1)))
+        proto = base(rng, "merge", style=rng.choice(["tiny", "mixed", "giant"]), n_rows=rng.randint(2, 10))
+        n = len(proto["layout"])
+        cuts = sorted(rng.sample(range(1, n), rng.randint(0, min(n - 1, 3)))) if n > 1 else []
+        sizes = [b - a for a, b in zip([0, *cuts], [*cuts, n])]
+        cases.append(shifted(dict(proto, sizes=sizes, sel=list(range(len(sizes))), ros=rng.randint(0, 1), rechunk=int(rng.random() < 0.8),
+                                  rechunk_to=rng.randint(1, 5), mod=rng.choice([2, 3, 5]), tgt_target=rng.randint(1, 4), tgt_comp=rng.choice(COMPRESSORS),
+                                  dst_comp=None, proc=rng.choice(["single_thread", "threaded_mailbox"]), workers=rng.choice([1, 2]))))
+    go("epoch-scale", cases,
+       f"copy / stand-alone rechunker / rechunk-on-load / per-chunk merge cases as above with EVERY time shifted by T0 = {T0} ns (int64-safe, above 2**53, "
+       "odd): any float64 detour of a time (split time, boundary, metadata) is off by up to 128 ns here and shows in the chunk boundaries and metadata",
+       branch=lambda c, o: f"{c['op']}:" + ("ok" if o.startswith("ok") or " e=- " in o else "err"))
 
     # ---- 5. keys
     cases = []
